@@ -37,7 +37,18 @@
 (*           part is removed, PaymentPathFailed (InitialSend) is queued and *)
 (*           what was refused is retried at once over an unused branch if   *)
 (*           retries are left (MppRetry for multi-part sends), otherwise    *)
-(*           the payment is abandoned: PaymentFailed once no part remains.  *)
+(*           the payment is abandoned: PaymentFailed once no part remains,  *)
+(*   "hc"    Ok, but the channel cannot build a commitment now (it waits    *)
+(*           for the peer's revocation, or a monitor write of that channel  *)
+(*           is in flight): the HTLC is parked in the channel's holding     *)
+(*           cell, part of the payment's bookkeeping like a sent one.  When *)
+(*           the channel can move again the holding cell is freed           *)
+(*           (MRelease; ChannelManager::check_free_peer_holding_cells /     *)
+(*           internal_revoke_and_ack -> Channel::free_holding_cell_htlcs):  *)
+(*           the add leaves, or -- the HTLC has become unsendable meanwhile *)
+(*           (limits changed, capacity used up) -- it is failed back        *)
+(*           (fail_holding_cell_htlcs -> fail_htlc): PaymentPathFailed,     *)
+(*           then a retry or PaymentFailed as for any failed part.          *)
 (* Bug # "none" plants a defect (spec mutants: TLC must report a deadlock). *)
 (***************************************************************************)
 EXTENDS PaySend, Json
@@ -51,9 +62,9 @@ CONSTANTS NP,          \* payment ids 1..NP (id p pays hash p)
           MaxOps,      \* bound on the script length
           MaxRetry,    \* automatic retries of a single-part payment
           Stale,       \* restarts from a snapshot the monitors have overtaken
-          Outcomes,    \* subset of {"sent", "wip", "ref"}: the answers of the first-hop channels at send time
+          Outcomes,    \* subset of {"sent", "wip", "ref", "hc"}: the answers of the first-hop channels at send time
           MppRetry,    \* set of retry counts of multi-part sends
-          Bug          \* "none" | "forget_wip" | "reuse_held"
+          Bug          \* "none" | "forget_wip" | "reuse_held" | "drop_hc"
 
 VARIABLES dst, dparts, dn, evq, ticks, saved, dirty, net, nextId, decided, paid,
           nDup, nRestart, nSend, obs, hist, quiet, nops,
@@ -91,6 +102,9 @@ H(op) == hist' = Append(hist, op) /\ nops' = nops + 1
 F(S) == feat' = feat \cup S
 Idle == obs = <<>>
 Path(k) == <<k, K + k>>
+\* the next unused branch (a retry avoids the channel that failed)
+FreeBranch(p) == {j \in 1..K : net[<<p, j>>].loc = "no" /\ j \notin closed}
+MinOf(S) == CHOOSE x \in S : \A y \in S : x <= y
 
 \* ---------------------------------------------------------------- observations -> PaySend
 MObs ==
@@ -107,7 +121,7 @@ MObs ==
        [] o.t = "evsent" -> SEvSent(0, o.p, o.p, TRUE, o.fee)
        \* (PaySend leaves open whether a PaymentFailed closes an earlier use of the id or the present one; the design
        \* knows: the events queued when the id was accepted again belong to the earlier use)
-       [] o.t = "evfailed" -> SEvFailed(0, o.p) /\ (nRestart = 0 => ((pay'[o.p].owed < pay[o.p].owed) <=> o.old))
+       [] o.t = "evfailed" -> SEvFailed(0, o.p, o.pend) /\ (nRestart = 0 => ((pay'[o.p].owed < pay[o.p].owed) <=> o.old))
        [] o.t = "evpathfailed" -> SEvPathFailed(0, o.p, o.p, o.blamed, o.initial, o.path)
        [] o.t = "evother" -> UNCHANGED svars
        [] o.t = "save" -> SSave(0)
@@ -148,7 +162,7 @@ Chain(p, free, rl, roc, first) ==      \* -> [evs, part (0: gave up), oc, rl]
 
 MSend(p, n, ocs, r, roc) ==
   /\ Idle /\ nSend[p] < MaxSend /\ n \in 1..K /\ closed = {}
-  /\ ocs \in [1..n -> Outcomes] /\ r \in RetryChoices(n) /\ roc \in Outcomes
+  /\ ocs \in [1..n -> Outcomes] /\ r \in RetryChoices(n) /\ roc \in Outcomes \ {"hc"}
   /\ nSend' = [nSend EXCEPT ![p] = @ + 1]
   /\ LET R == {k \in 1..n : ocs[k] = "ref"}
          free == (n + 1)..K
@@ -173,12 +187,13 @@ MSend(p, n, ocs, r, roc) ==
              /\ decided' = [decided EXCEPT ![p] = "none"]
              /\ net' = [x \in DOMAIN net |->
                           IF x[1] = p /\ x[2] <= n /\ ocs[x[2]] # "ref"
-                          THEN [loc |-> IF ocs[x[2]] = "sent" THEN "out" ELSE "wip", id |-> nextId[x[2]], id2 |-> 0, origin |-> 0, mult |-> 1]
+                          THEN [loc |-> IF ocs[x[2]] = "sent" THEN "out" ELSE ocs[x[2]], id |-> nextId[x[2]], id2 |-> 0, origin |-> 0, mult |-> 1]
                           ELSE IF x[1] = p /\ x[2] = ch.part
                           THEN [loc |-> IF ch.oc = "sent" THEN "out" ELSE "wip", id |-> nextId[x[2]], id2 |-> 0, origin |-> 0, mult |-> Cardinality(R)]
                           ELSE IF x[1] = p /\ x[2] <= n THEN [net[x] EXCEPT !.loc = "refd"]      \* (previously_failed_channels)
                           ELSE IF x[1] = p THEN [net[x] EXCEPT !.loc = "no"] ELSE net[x]]
-             /\ nextId' = [c \in DOMAIN nextId |-> IF (c <= n /\ ocs[c] # "ref") \/ c = ch.part THEN nextId[c] + 1 ELSE nextId[c]]
+             \* (a parked HTLC gets its id when it leaves the holding cell)
+             /\ nextId' = [c \in DOMAIN nextId |-> IF (c <= n /\ ocs[c] \in {"sent", "wip"}) \/ c = ch.part THEN nextId[c] + 1 ELSE nextId[c]]
              /\ dirty' = TRUE /\ dch' = dch \cup {k \in 1..n : ocs[k] # "ref"} \cup (IF ch.part # 0 THEN {ch.part} ELSE {})
              /\ rleft' = [rleft EXCEPT ![p] = IF gaveUp THEN 0 ELSE ch.rl]
              /\ evq' = [i \in 1..Len(evq) |-> IF evq[i].k = "failed" /\ evq[i].p = p THEN [evq[i] EXCEPT !.old = TRUE] ELSE evq[i]]
@@ -194,6 +209,7 @@ MSend(p, n, ocs, r, roc) ==
      /\ H(op) /\ quiet' = FALSE
      /\ F((IF accepted THEN {} ELSE {"send-refused"})
           \cup (IF accepted /\ \E k \in 1..n : ocs[k] = "wip" THEN {"part-wip"} ELSE {})
+          \cup (IF accepted /\ \E k \in 1..n : ocs[k] = "hc" THEN {"part-hc"} ELSE {})
           \cup (IF accepted /\ R # {} THEN {"part-refused"} ELSE {})
           \cup (IF accepted /\ R # {} /\ \E k \in 1..n : ocs[k] = "wip" THEN {"wip+refused"} ELSE {})
           \cup (IF accepted /\ ch.part # 0 THEN {"immediate-retry"} ELSE {})
@@ -211,6 +227,56 @@ MComplete(k) ==
   /\ UNCHANGED <<dst, dparts, dn, evq, ticks, saved, nextId, decided, paid, nDup, nRestart, nSend, rleft, closed, confirmed, sentSince>>
   /\ H([op |-> "complete", k |-> k]) /\ quiet' = FALSE /\ F({})
 
+\* the channel A-B_k can move again (the revocation arrived / the write it waited for completed): its holding cell is
+\* freed.  fate "ok": the parked add leaves;  "fail": it has become unsendable and is failed back -- fail_htlc, as for a
+\* part failed on the wire (MCommit), but naming the first hop; roc: the answer of the branch a retry is sent over.
+\* Bug "drop_hc": the failed HTLC is dropped from the holding cell and nobody is told.
+MRelease(p, k, fate, roc) ==
+  /\ Idle /\ net[<<p, k>>].loc = "hc" /\ k \notin closed
+  /\ fate \in {"ok", "fail"} /\ roc \in Outcomes \ {"ref", "hc"}
+  /\ (roc # "sent") => (fate = "fail" /\ k \in dparts[p] /\ dst[p] = "retry" /\ rleft[p] > 0 /\ FreeBranch(p) # {} /\ Bug # "drop_hc")
+  /\ dirty' = TRUE
+  /\ IF fate = "ok"
+     THEN /\ net' = [net EXCEPT ![<<p, k>>].loc = "out", ![<<p, k>>].id = nextId[k]]
+          /\ nextId' = [nextId EXCEPT ![k] = @ + 1]
+          /\ Emit(<<[t |-> "add", node |-> 0, chan |-> k, id |-> nextId[k], hash |-> p, mult |-> net[<<p, k>>].mult]>>)
+          /\ dch' = dch \cup {k}
+          /\ UNCHANGED <<dst, dparts, evq, rleft>>
+     ELSE IF Bug = "drop_hc"
+     THEN /\ net' = [net EXCEPT ![<<p, k>>].loc = "done"]
+          /\ Emit(<<>>) /\ UNCHANGED <<dst, dparts, evq, rleft, nextId, dch>>
+     ELSE IF k \notin dparts[p] \/ dst[p] \in {"none", "gone"}
+     THEN /\ net' = [net EXCEPT ![<<p, k>>].loc = "done"]
+          /\ Emit(<<>>) /\ UNCHANGED <<dst, dparts, evq, rleft, nextId, dch>>
+     ELSE IF dst[p] = "ful"
+     THEN /\ net' = [net EXCEPT ![<<p, k>>].loc = "done"]
+          /\ dparts' = [dparts EXCEPT ![p] = @ \ {k}]
+          /\ Emit(<<>>) /\ UNCHANGED <<dst, evq, rleft, nextId, dch>>
+     ELSE LET left == dparts[p] \ {k}
+              pf == [k |-> "pathfailed", p |-> p, blamed |-> k, path |-> Path(k), initial |-> FALSE]
+          IN IF dst[p] = "retry" /\ rleft[p] > 0 /\ FreeBranch(p) # {}
+             THEN LET j == MinOf(FreeBranch(p)) IN
+                  /\ rleft' = [rleft EXCEPT ![p] = @ - 1]
+                  /\ dparts' = [dparts EXCEPT ![p] = left \cup {j}]
+                  /\ evq' = Append(evq, pf) /\ UNCHANGED dst
+                  /\ net' = [net EXCEPT ![<<p, k>>].loc = "done",
+                                         ![<<p, j>>] = [loc |-> IF roc = "sent" THEN "out" ELSE "wip", id |-> nextId[j], id2 |-> 0, origin |-> 0,
+                                                        mult |-> net[<<p, k>>].mult]]
+                  /\ nextId' = [nextId EXCEPT ![j] = @ + 1]
+                  /\ dch' = dch \cup {j}
+                  /\ Emit(PartObs(p, j, roc, nextId[j], net[<<p, k>>].mult))
+             ELSE /\ rleft' = [rleft EXCEPT ![p] = IF dst[p] = "retry" /\ @ > 0 THEN @ - 1 ELSE @]
+                  /\ dparts' = [dparts EXCEPT ![p] = left]
+                  /\ IF left = {}
+                     THEN dst' = [dst EXCEPT ![p] = "gone"] /\ evq' = evq \o <<pf, [k |-> "failed", p |-> p, old |-> FALSE]>>
+                     ELSE dst' = [dst EXCEPT ![p] = "aband"] /\ evq' = Append(evq, pf)
+                  /\ net' = [net EXCEPT ![<<p, k>>].loc = "done"]
+                  /\ Emit(<<>>) /\ UNCHANGED <<nextId, dch>>
+  /\ UNCHANGED <<dn, ticks, saved, decided, paid, nDup, nRestart, nSend, closed, confirmed, sentSince>>
+  /\ H([op |-> "release", p |-> p, k |-> k, fate |-> fate, roc |-> roc]) /\ quiet' = FALSE
+  /\ F((IF fate = "fail" THEN {"hc-failed"} ELSE {"hc-sent"})
+       \cup (IF fate = "fail" /\ Bug # "drop_hc" /\ k \in dparts[p] /\ dst[p] = "retry" /\ rleft[p] > 0 /\ FreeBranch(p) # {} THEN {"hc-retry"} ELSE {}))
+
 \* the terminal events: abandon_payment / fail_htlc push PaymentFailed once no part remains
 MAbandon(p) ==
   /\ Idle /\ dst[p] = "retry"
@@ -220,11 +286,14 @@ MAbandon(p) ==
   /\ UNCHANGED <<svars, obs, dparts, dn, ticks, saved, dirty, net, nextId, decided, paid, nDup, nRestart, nSend, xvars>>
   /\ H([op |-> "abandon", p |-> p]) /\ quiet' = FALSE /\ F(IF dparts[p] # {} THEN {"abandon-in-flight"} ELSE {})
 
+\* what A's channels list for the payment (ChannelDetails::pending_outbound_htlcs): every HTLC that is in a channel or
+\* its holding cell and whose removal is not yet irrevocable
+Listed(p) == Cardinality({k \in 1..K : net[<<p, k>>].loc \in {"wip", "hc", "out", "held", "retFul", "retFail", "dlvFul", "dlvFail"}})
 MHandle ==
   /\ Idle /\ evq # <<>>
   /\ LET e == Head(evq) IN
      Emit(<<CASE e.k = "sent" -> [t |-> "evsent", p |-> e.p, fee |-> e.fee]
-              [] e.k = "failed" -> [t |-> "evfailed", p |-> e.p, old |-> e.old]
+              [] e.k = "failed" -> [t |-> "evfailed", p |-> e.p, old |-> e.old, pend |-> Listed(e.p)]
               [] e.k = "pathfailed" -> [t |-> "evpathfailed", p |-> e.p, blamed |-> e.blamed, path |-> e.path, initial |-> e.initial]
               [] OTHER -> [t |-> "evother"]>>)
   /\ evq' = Tail(evq)
@@ -242,7 +311,7 @@ MTick ==
   /\ UNCHANGED <<svars, obs, dparts, dn, evq, saved, dirty, net, nextId, decided, paid, nDup, nRestart, nSend, xvars>>
   /\ H([op |-> "tick"]) /\ quiet' = FALSE /\ F({})
 
-NoWip == \A x \in DOMAIN net : net[x].loc # "wip"
+NoWip == \A x \in DOMAIN net : net[x].loc \notin {"wip", "hc"}
 MSave ==
   /\ Idle /\ nRestart < MaxRestart /\ closed = {} /\ NoWip
   /\ saved' = [dst |-> dst, dparts |-> dparts, dn |-> dn, evq |-> evq, ticks |-> ticks]
@@ -342,13 +411,10 @@ MDup(p, k) ==
 \* the removal becomes irrevocable: finalize_claims / fail_htlc
 Blamed(k, origin) == IF origin = 1 THEN K + k ELSE 0
 SentQueued(p) == \E i \in 1..Len(evq) : evq[i].p = p /\ evq[i].k = "sent"
-\* the next unused branch (a retry avoids the channel that failed)
-FreeBranch(p) == {j \in 1..K : net[<<p, j>>].loc = "no" /\ j \notin closed}
-MinOf(S) == CHOOSE x \in S : \A y \in S : x <= y
 MCommit(p, k, roc) ==
   /\ Idle /\ net[<<p, k>>].loc \in {"dlvFul", "dlvFail"} /\ k \notin closed
   \* roc: the answer of the branch a retry is sent over ("sent", or "wip": its monitor write is in flight)
-  /\ roc \in Outcomes \ {"ref"}
+  /\ roc \in Outcomes \ {"ref", "hc"}
   /\ (roc # "sent") => (net[<<p, k>>].loc = "dlvFail" /\ k \in dparts[p] /\ dst[p] = "retry" /\ rleft[p] > 0 /\ FreeBranch(p) # {})
   \* the monitor update that makes a fulfil irrevocable is held back until the user has handled PaymentSent
   /\ net[<<p, k>>].loc = "dlvFul" => ~SentQueued(p)
@@ -492,7 +558,7 @@ MChainTimeout(p, k) ==
 \* every link up and empty, every event handled
 \* (once a channel was closed the chain settles: nothing stays behind on a closed channel, and what the
 \* recipient still holds is failed back when it expires)
-Moving == \/ \E x \in DOMAIN net : net[x].loc \in {"out", "wip", "retFul", "retFail", "dlvFul", "dlvFail"}
+Moving == \/ \E x \in DOMAIN net : net[x].loc \in {"out", "wip", "hc", "retFul", "retFail", "dlvFul", "dlvFail"}
           \/ closed # {} /\ \E x \in DOMAIN net : net[x].loc = "held"
           \/ closed # confirmed
 MQuiet ==
@@ -508,6 +574,7 @@ MCNext ==
   \/ MObs
   \/ \E p \in P, n \in 1..K : \E r \in RetryChoices(n), roc \in Outcomes, ocs \in [1..n -> Outcomes] : MSend(p, n, ocs, r, roc)
   \/ \E k \in 1..K : MComplete(k)
+  \/ \E p \in P, k \in 1..K, fate \in {"ok", "fail"}, roc \in Outcomes : MRelease(p, k, fate, roc)
   \/ \E p \in P : MAbandon(p) \/ MClaim(p) \/ MFailR(p)
   \/ MHandle \/ MTick \/ MSave \/ MRestart \/ MRestartStale
   \/ \E p \in P, k \in 1..K : MArrive(p, k) \/ MFailHop(p, k) \/ MDeliver(p, k) \/ MDup(p, k)
